@@ -756,7 +756,9 @@ def mon06 : Monitor G14 where
       [ (sc.resp.isSome || (decide (out = UpdateOut.errCheck) && !post.net.any isDownload),
           "C06: the patch check failed, yet the update did not stop with the check error before any download"),
         (!decide (out = UpdateOut.installed) || (sc.resp.isSome && sc.dl.isSome),
-          "C06: the update reported 'installed' although the patch check or the download had failed") ]
+          "C06: the update reported 'installed' although the patch check or the download had failed"),
+        (!decide (out = UpdateOut.installed) || ((sc.resp.map (·.available)).getD false),
+          "C06: the update reported 'installed' although the response said that no patch is available") ]
     | .check _ resp, some _, .bool b =>
       [ (resp.isSome || !b, "C06: check_for_downloadable_update answered true although its request failed") ]
     | _, _, _ => []
